@@ -163,7 +163,9 @@ Blake2bAbsorb(h, data) ==
                                           W64FromNat(128 * (k + 1)), W64Zero, FALSE),
                        h, [k \in 1..nb |-> k - 1])
       tail == SubSeq(data, 128 * nb + 1, n) \o Blake2bZeros(128 - (n - 128 * nb))
-  IN Blake2bCompress(hh, tail, n, TRUE)
+  IN IF Len(hh) = 8             \* always true; sequencing only
+     THEN Blake2bCompress(hh, tail, n, TRUE)
+     ELSE <<>>
 
 Blake2bStateBytes(h) ==
   W64ToBytesLE(h[1]) \o W64ToBytesLE(h[2]) \o W64ToBytesLE(h[3]) \o W64ToBytesLE(h[4]) \o
@@ -173,7 +175,9 @@ Blake2b(msg, key, outlen, salt, personal) ==
   LET kk   == Len(key)
       data == IF kk = 0 THEN msg ELSE key \o Blake2bZeros(128 - kk) \o msg
       h    == Blake2bAbsorb(Blake2bInitH(outlen, kk, salt, personal), data)
-  IN SubSeq(Blake2bStateBytes(h), 1, outlen)
+  IN IF Len(data) >= 0          \* always true; evaluates the input before hashing starts
+     THEN SubSeq(Blake2bStateBytes(h), 1, outlen)
+     ELSE <<>>
 
 \* Convenience: plain unkeyed BLAKE2b-outlen.
 Blake2bHash(msg, outlen) == Blake2b(msg, <<>>, outlen, <<>>, <<>>)
